@@ -74,6 +74,9 @@ Definition clusters (anc_genes : list ref) (um : list (hog * (option hog * bool)
          hm_ndup := fold_left (fun n e => n + (List.length (snd e) - 1)) du 0 |}
   end.
 
+(* MapVertical.get_number_duplications (finding F3 repaired: returns the attribute) *)
+Definition get_number_duplications (m : hmap) : nat := hm_ndup m.
+
 Definition genome_refs (fo : forest) (D : taxon) : list ref :=
   map (fun x => href (fst (fst x))) (genome_nodes fo D).
 
